@@ -51,17 +51,18 @@ class _Returned(Exception):
         self.v = v
 
 
-def guard_result(F, fn, user_ids, n_user, before, after):
-    """value returned by a leaf guard wrapper when the cancellation flag reads `before` ahead of the user code and `after` behind it"""
-    st = {'seen': 0}
+def guard_result(F, fn, user_ids, f0, cancels):
+    """(value returned, flag at exit, number of user calls made) for a leaf guard wrapper entered with the cancellation flag `f0`, when the
+    i-th user call it makes cancels iff cancels[i] (the flag only ever goes from false to true: its only writer sets it). The body is
+    interpreted statement by statement; a user call under a condition is made or not according to the condition's value at that point."""
+    st = {'flag': f0, 'calls': 0}
     refs = {}
 
-    def flag():
-        if st['seen'] == 0:
-            return before
-        if st['seen'] >= n_user:
-            return after
-        raise AnalysisBroken('%s reads the cancellation flag between two user calls' % fn.short)
+    def user_call():
+        i = st['calls']
+        st['calls'] += 1
+        if i < len(cancels) and cancels[i]:
+            st['flag'] = True
 
     def ev(e, env, g, depth=0):
         e = ir.strip(e)
@@ -69,7 +70,7 @@ def guard_result(F, fn, user_ids, n_user, before, after):
         if k == 'c':
             return bool(e['v'])
         if k == 'mem' and e['f'] == '_cancelled':
-            return flag()
+            return st['flag']
         if k == 'var':
             if e['id'] in refs:
                 return ev(refs[e['id']], env, g, depth)       # a reference local: denotes its initialiser at the time of the read
@@ -94,13 +95,18 @@ def guard_result(F, fn, user_ids, n_user, before, after):
                 try:
                     cenv[p['id']] = ev(a, env, g, depth)
                 except AnalysisBroken:
-                    cenv[p['id']] = None      # an object (the control): its flag is read through flag()
+                    cenv[p['id']] = None      # an object (the control): its flag is read through st['flag']
             try:
                 run_block(h.body, cenv, h, depth + 1)
             except _Returned as r:
                 return r.v
             raise AnalysisBroken('helper %s returns nothing' % h.short)
         raise AnalysisBroken('guard wrapper returns an expression outside the boolean fragment: ' + ir.pp(e))
+
+    def effects_in(e):
+        for x in ir.walk(e):
+            if id(x) in user_ids:
+                user_call()
 
     def run_block(s, env, g, depth):
         if s is None:
@@ -112,9 +118,7 @@ def guard_result(F, fn, user_ids, n_user, before, after):
         elif k == 'decl':
             for v in s['vars']:
                 if v.get('init') is not None and 'unknown_decl' not in v:
-                    for x in ir.walk(v['init']):
-                        if id(x) in user_ids:
-                            st['seen'] += 1
+                    effects_in(v['init'])
                     if v.get('ref'):
                         refs[v['id']] = v['init']
                         continue
@@ -123,23 +127,17 @@ def guard_result(F, fn, user_ids, n_user, before, after):
                     except AnalysisBroken:
                         pass      # not a boolean (scoped origin, logger pointer, ...)
         elif k == 'expr':
-            for x in ir.walk(s['e']):
-                if id(x) in user_ids:
-                    st['seen'] += 1
+            effects_in(s['e'])
         elif k == 'ret':
             raise _Returned(ev(s['e'], env, g, depth))
         elif k == 'if':
-            # logging only: `if (logger) record(...)`: no boolean of interest is defined inside; user calls inside a branch are refused
-            for t in ir.walk_stmts(s):
-                for e in ir.stmt_exprs(t):
-                    for x in ir.walk(e):
-                        if id(x) in user_ids:
-                            raise AnalysisBroken('%s calls user code conditionally' % fn.short)
-            # an if/else that returns on both arms: evaluate the taken arm
+            has_user = any(id(x) in user_ids for t in ir.walk_stmts(s) for e in ir.stmt_exprs(t) for x in ir.walk(e))
             try:
                 cv = ev(s['c'], env, g, depth)
             except AnalysisBroken:
-                return
+                if has_user:
+                    raise AnalysisBroken('%s calls user code under a condition that is not a function of the cancellation flag' % fn.short)
+                return       # logging: `if (logger) record(...)`
             run_block(s['t'] if cv else s.get('e'), env, g, depth)
         elif k == 'null':
             return
@@ -148,7 +146,7 @@ def guard_result(F, fn, user_ids, n_user, before, after):
     try:
         run_block(fn.body, {}, fn, 0)
     except _Returned as r:
-        return r.v
+        return r.v, st['flag'], st['calls']
     raise AnalysisBroken('%s returns nothing' % fn.short)
 
 
@@ -169,12 +167,23 @@ def wrappers(run, F, E):
                       (anchors.call_target(F, E, fn, n)[0] is not None and anchors.call_target(F, E, fn, n)[0].tkey == 'ffsm2::detail::A_')]
         user_ids = set(id(n.e) for n in user_nodes)
         ok_pos = bool(user_nodes)
+        # every combination of (flag at entry, which of the user calls cancel): entered with the flag clear, the wrapper reports exactly
+        # whether the flag is set at its exit -- i.e. whether any guard it delivered (an injection's or the state's own) cancelled
         verdicts = {}
-        for before, after in itertools.product([False, True], repeat=2):
-            verdicts[(before, after)] = guard_result(F, fn, user_ids, len(user_nodes), before, after)
-        ok = ok_pos and verdicts[(False, True)] is True and verdicts[(False, False)] is False and verdicts[(True, False)] is False
+        ok = ok_pos
+        n_u = len(user_nodes)
+        for cancels in itertools.product([False, True], repeat=n_u):
+            ret, f_end, made = guard_result(F, fn, user_ids, False, cancels)
+            verdicts[cancels] = (ret, f_end)
+            if ret != f_end:
+                ok = False
+        # entered with the flag already set nothing can be *newly* cancelled
+        ret_t, _, _ = guard_result(F, fn, user_ids, True, (False,) * n_u)
+        if ret_t is not False:
+            ok = False
+        verdicts['flag set at entry'] = ret_t
         run.ob('C03.e', 'S_::%s returns "newly cancelled" (F,T)->true, (*,F)->false; flag sampled around the user code' % fn.m, ok, where=fn.pat,
-               detail=None if ok else {'truth_table(before,after)': {str(k): v for k, v in verdicts.items()}, 'sampling_ok': ok_pos},
+               detail=None if ok else {'(which user calls cancel) -> (returned, flag at exit)': {str(k): v for k, v in verdicts.items()}, 'has user code': ok_pos},
                key='S_::%s does not report a new cancellation correctly' % fn.m)
     # writers of _cancelled
     for fn in F.fns:
